@@ -5,7 +5,10 @@ import (
 	"bytes"
 	"fmt"
 	"os"
+	"os/exec"
 	"reflect"
+	"strconv"
+	"strings"
 	"sync"
 	"time"
 
@@ -24,6 +27,9 @@ func c12Run(c *ctx, seed uint64, goroutines, iters int, source string) {
 		t := []reflect.Type{reflect.TypeOf(Deep{}), reflect.TypeOf(Lists{}), reflect.TypeOf(Outer{}), reflect.TypeOf(Many{}), reflect.TypeOf(Maps{})}[i]
 		vals = append(vals, genValue(t, seed*11+uint64(i), 40, 12))
 	}
+	// strings and byte slices longer than one chunk (the chunk loops and any buffer reuse in them)
+	vals = append(vals, &Inner{A: 1, S: mkString("mixed", 2048*2+17, -1, newRng(seed, "c12-long"))})
+	vals = append(vals, &FBytes{V: mkBytes(4096*2+5, newRng(seed, "c12-longb"))})
 	tm, nm := mergeMaps(vals)
 	var wantB [][]byte
 	var wantC []string
@@ -104,7 +110,53 @@ func c12Run(c *ctx, seed uint64, goroutines, iters int, source string) {
 	}
 }
 
+// cold start: the very first decodes of a type in this process happen concurrently (lazily filled
+// caches are written then); run in a fresh subprocess per sample
+func c12Cold(c *ctx, seed uint64, goroutines int) {
+	in := map[string]interface{}{"op": "concurrent-cold", "cseed": seed, "goroutines": goroutines}
+	v := genValue(reflect.TypeOf(Deep{}), seed, 40, 12)
+	tm, nm := hessian.ExtractTypeNameMap(v)
+	b, err := hessian.ToBytes(v, nm)
+	if err != nil {
+		return
+	}
+	start := make(chan bool)
+	var wg sync.WaitGroup
+	res := make([]string, goroutines)
+	for g := 0; g < goroutines; g++ {
+		wg.Add(1)
+		go func(g int) {
+			defer wg.Done()
+			d := hessian.NewDecoder(nil, tm)
+			e := hessian.NewEncoder(nil, nm)
+			<-start
+			x, err := d.Decode(b)
+			b2, err2 := e.Encode(v)
+			if err != nil || err2 != nil || !(bytes.Equal(b2, b) || sameMapOrderInsensitive(b2, b, v)) {
+				res[g] = fmt.Sprint("error ", err, err2)
+				return
+			}
+			res[g] = canonTop(x)
+		}(g)
+	}
+	close(start)
+	wg.Wait()
+	for g := 1; g < goroutines; g++ {
+		if res[g] != res[0] {
+			c.fail("concurrent first use gives different results", in, fmt.Sprintf("goroutine %d: %s", g, truncS(res[g], 100)), "")
+			return
+		}
+	}
+}
+
 func runC12(c *ctx) {
+	if c.extra["cold"] == true || os.Getenv("HX_C12_COLD") != "" {
+		s, _ := strconv.ParseUint(os.Getenv("HX_C12_COLD"), 10, 64)
+		c.rule = "cold-start sample"
+		c.eval(fmt.Sprint("cold", s))
+		c12Cold(c, s, 32)
+		return
+	}
 	if rp, ok := c.extra["replay"].(string); ok {
 		in := loadReplay(rp)
 		c12Run(c, uint64(in["cseed"].(float64)), int(in["goroutines"].(float64)), int(in["iters"].(float64)), in["source"].(string))
@@ -112,8 +164,29 @@ func runC12(c *ctx) {
 	}
 	c.rule = "2..64 goroutines, each driving its own serializer / encoder / decoder (freshly constructed, or handed out by the library's pools) over the SAME complete type map and name map and the same read-only input values; every result (bytes, canonical decoded value) compared with the sequential result; the binary is built with the race detector, so any unsynchronised access to shared memory is reported (the check greps the report). Distinct by (seed, goroutines, source); all non-trivial."
 	n := 24
+	cold := 6
 	if c.tier == "thorough" {
-		n = 600
+		n, cold = 600, 60
+	}
+	// cold-start samples, each in a fresh subprocess of this (race-instrumented) binary
+	self, _ := os.Executable()
+	for i := 0; i < cold; i++ {
+		dir, _ := os.MkdirTemp(c.outDir, "cold")
+		cmd := exec.Command(self, "C12", "-out", dir)
+		cmd.Env = append(os.Environ(), fmt.Sprint("HX_C12_COLD=", c.seed*1000+uint64(i)))
+		out, err := cmd.CombinedOutput()
+		c.eval(fmt.Sprint("cold#", i))
+		c.dist["cold_start_runs"]++
+		in := map[string]interface{}{"op": "concurrent-cold", "cseed": c.seed*1000 + uint64(i)}
+		if strings.Contains(string(out), "WARNING: DATA RACE") {
+			k := strings.Index(string(out), "WARNING: DATA RACE")
+			c.fail("the race detector reports an unsynchronised access to shared memory (first concurrent use)", in, truncS(string(out)[k:], 2500), "")
+		} else if err != nil {
+			c.fail("cold-start subprocess failed", in, truncS(string(out), 600), "")
+		} else if b, e := os.ReadFile(dir + "/C12.oracle.json"); e == nil && strings.Contains(string(b), "concurrent first use gives different results") {
+			c.fail("concurrent first use gives different results", in, "", "")
+		}
+		os.RemoveAll(dir)
 	}
 	for i := 0; i < n; i++ {
 		seed := c.seed*313 + uint64(i)
